@@ -247,6 +247,43 @@ def rule_E15(run: Run, prog: Program) -> int:
                 attempt("arithmetic", lambda m=m, x=x: interp().call(m, [t, x]), {"t": t}, f"{desc}: {name}(t, array with {xd} axes)")
             other = _tensor(tcls, f, cov, con, "u")
             attempt("arithmetic", lambda m=m, other=other: interp().call(m, [t, other]), {"t": t, "u": other}, f"{desc}: {name}(t, tensor of the same type)")
+    # the constructor's own contract: covariant= holds positions RELATIVE to the tensor part (negative ones count from its end), the
+    # first ndim - tensor_rank axes are collection axes, every other tensor index is contravariant
+    init = prog.lookup(tcls, "__init__")
+    if init is not None:
+        for nd in (1, 2, 3, 4):
+            for tr in [None] + list(range(0, nd + 1)):
+                rank_t = nd if tr is None else tr
+                free = nd - rank_t
+                choices = [True, False] + [list(c) for k in range(0, rank_t + 1) for c in itertools.combinations(range(rank_t), k)][:12]
+                if rank_t:
+                    choices.append([-1])
+                for cov in choices:
+                    def thunk(nd=nd, tr=tr, cov=cov):
+                        me = absint.Obj(__cls__=tcls)
+                        kw = {"covariant": cov, "copy": False}
+                        if tr is not None:
+                            kw["tensor_rank"] = tr
+                        absint.Interp(prog).call(init, [me, absint.Arr(nd, "f", tuple(("a", i) for i in range(nd)))], kw)
+                        return me
+                    n += 1
+                    counts["constructor"] = counts.get("constructor", 0) + 1
+                    what = f"Tensor(array with {nd} axes, covariant={cov}, tensor_rank={tr})"
+                    try:
+                        me = thunk()
+                    except absint.Unsupported as e:
+                        unsupported.setdefault("constructor", {})
+                        unsupported["constructor"][str(e)] = unsupported["constructor"].get(str(e), 0) + 1
+                        continue
+                    except absint.Raised as e:
+                        wrong.setdefault("constructor", []).append(f"{what}: raises {e.name}")
+                        continue
+                    want_cov = set(range(free, nd)) if cov is True else (set() if cov is False else {free + (i % rank_t) for i in cov})
+                    want_con = set(range(free, nd)) - want_cov
+                    got_cov, got_con = me.__dict__.get("_covariant_indices"), me.__dict__.get("_contravariant_indices")
+                    if got_cov != want_cov or got_con != want_con:
+                        wrong.setdefault("constructor", []).append(f"{what}: covariant {sorted(got_cov or [])} / contravariant {sorted(got_con or [])}, "
+                                                                   f"expected {sorted(want_cov)} / {sorted(want_con)}")
     if fn_tp is not None:
         singles = [(cov, con) for f, cov, con in _layouts(2) if f == 0]
         for (ca, da), (cb, db) in itertools.product(singles, repeat=2):
@@ -254,7 +291,7 @@ def rule_E15(run: Run, prog: Program) -> int:
             attempt("tensor_product", lambda a=a, b=b: interp().call(fn_tp, [a, b]), {"a": a, "b": b},
                     f"a (covariant {ca}, contravariant {da}) x b (covariant {cb}, contravariant {db})")
     run.stats["index_type_cases"] = counts
-    loc_of = {"transpose": fn_t, "tensor_product": fn_tp, "copy": fn_copy, "__getitem__": fn_get, "expand_dims": fn_exp, "arithmetic": ops.get("__add__")}
+    loc_of = {"transpose": fn_t, "tensor_product": fn_tp, "copy": fn_copy, "__getitem__": fn_get, "expand_dims": fn_exp, "arithmetic": ops.get("__add__"), "constructor": init}
     for op in sorted(counts):
         fn = loc_of.get(op)
         loc = fn.loc if fn is not None else ""
